@@ -850,7 +850,10 @@ def nothing_under_lock(chk, P, prefix):
                     if t["k"] == "call":
                         c = mir.CallSite(b, bb, t)
                         nm = c.callee.get("name")
-                        if "indirect" in c.callee or (nm in FORBIDDEN_NAMES and not (c.callee.get("path") or "").startswith("core::mem::")):
+                        st = c.callee.get("self_ty") or ""
+                        generic_user_code = bool(re.match(r"^&?(mut )?[A-Z][A-Za-z0-9]*$", st)) and c.callee.get("trait") not in (CH, None) \
+                            and not (c.callee.get("trait") or "").startswith(("core::ops::deref", "core::ops::drop", "core::clone", "core::default"))
+                        if "indirect" in c.callee or generic_user_code or (nm in FORBIDDEN_NAMES and not (c.callee.get("path") or "").startswith("core::mem::")):
                             # calling Channel methods / Watchers::push_* is fine; user callbacks and waits are not
                             return False, ("%s calls %s at %s while the state lock is held: user code or a wait under the "
                                            "lock can deadlock senders and the receiver" % (b.key, c.callee.get("full") or "a callback", c.loc)), [], c.loc
@@ -859,7 +862,7 @@ def nothing_under_lock(chk, P, prefix):
         if len(sites) < 7:
             return False, "expected at least 7 guarded regions in emit_batcher, found %d" % len(sites), [], None
         return True, "", sites
-    chk.ob("%s.R3:nothing-under-lock" % prefix, "no await, user callback, watcher notification or blocking wait while the state lock is held", f)
+    chk.ob("%s.R3:nothing-under-lock" % prefix, "no await, user callback (closure or method of a caller-supplied generic type other than T: Channel), watcher notification or blocking wait while the state lock is held", f)
 
 
 def termination(chk, P, prefix):
@@ -1006,6 +1009,19 @@ def send_rules(chk, P, prefix):
                     return False, "push is on the edge where len %s max_capacity is %s" % (so[1], taken), [], pushes[0].loc
         if not ok:
             return False, "push is not control-dependent on len < max_capacity", [], pushes[0].loc
+        # nothing is accepted after the channel is closed: the push (and the Ok it reports) needs is_open
+        def needs_open(bb):
+            for gbb, vals, n in b.guards_of(bb):
+                a = atom(b, b.switch_origin(gbb))
+                if a[0] == "is_open":
+                    # atom() reports (name, negated?) of the tested expression; the edge taken must mean is_open == true
+                    taken = list(vals) != ["0"]
+                    if (a[1] and taken) or (not a[1] and not taken):
+                        return True
+            return False
+        if not needs_open(pushes[0].bb):
+            return False, ("try_send can push while the channel is closed (the push at %s is not control-dependent on is_open): the item would be "
+                           "accepted (Ok) by a queue nobody will ever drain" % pushes[0].loc), [], pushes[0].loc
         # the full arm hands the item back; the closed arm is not retryable
         retry = b.calls_to(path_re=r"BatchError::<.*>::retry$")
         noret = b.calls_to(path_re=r"BatchError::<.*>::no_retry$")
